@@ -24,7 +24,9 @@ PYTHONPATH=$V/src timeout 600 /venv/bin/python -m pytest -q -p no:cacheprovider 
 if grep -q "no tests ran\|collected 0 items" /tmp/val/$id.demo1; then PYTHONPATH=$V/src timeout 600 /venv/bin/python $out/$demo > /tmp/val/$id.demo1 2>&1; d1=$?; fi
 tail -3 /tmp/val/$id.demo1; echo "exit=$d1"
 echo "-- repository test suite WITH the change"
-PYTHONPATH=$V/src timeout 1500 /venv/bin/python -m pytest -q -p no:cacheprovider --no-cov --timeout=900 -rf tests 2>&1 | grep -E "^(FAILED|ERROR)|passed|failed" | tail -8
+# private network namespace with a veth pair and default routes: the full suite passes there (295 passed) and parallel
+# confirmations cannot hear each other's multicast traffic
+unshare -n sh -c "ip link set lo up; ip link add v0 type veth peer name v1 && ip addr add 10.9.9.1/24 dev v0 && ip -6 addr add fd99::1/64 dev v0 nodad; ip link set v0 up; ip link set v1 up; ip route add default dev v0; ip -6 route add default dev v0; sleep 3; cd $V; PYTHONPATH=$V/src timeout 1500 /venv/bin/python -m pytest -q -p no:cacheprovider --no-cov --timeout=900 -rf tests 2>&1" | grep -E "^(FAILED|ERROR)|passed|failed" | tail -8
 echo "== summary: demo_without_exit=$d0 demo_with_exit=$d1"
 } > $out/confirm.log 2>&1
 cd /; git -C /repo worktree remove --force $V
